@@ -21,6 +21,7 @@ func init() {
 		ID:      "C07",
 		Arch386: true,
 		Explanation: "T18 every call into go-sev-guest's certificate-table parser (CertTable.Unmarshal, ReportCertsToProto) is dominated by the nil edge of extractsev.CheckCertTable over bytes of the same input (F24). " +
+			"T25 an integer division or remainder by a non-constant happens only behind a dominating condition on that very value that excludes zero. " +
 			"T24 a conversion of a slice to an array or array pointer ([N]T(x)) happens only where len(x) ≥ N is established for that slice (by construction, by a dominating condition, or by every caller of an unexported helper): a shorter value panics. " +
 			"T23 (= C16.R8/R9) optional evidence sources are nil-tested before use and never wrapped or manufactured by the extraction library. " +
 			"T21 a difference of two non-constant integers that is unsigned, or used as an index / slice bound / allocation size, is taken only where the subtrahend is known to be no larger than the minuend (dominating comparison of the same values, transitively, shifted form, by construction, helper postcondition, established by every caller, or — signed — every use behind diff ≥ 0); named value exceptions by package and operand shape. " +
@@ -262,6 +263,7 @@ func runC07(c *Ctx) {
 	// T24: a slice converted to an array needs its length established first
 	// (none on the present tree: the canary mutant C07-mrtd-converted-to-array must fire)
 	c.S.OK("T24", "relying-party closure:slice-to-array conversions", "", fmt.Sprintf("%d conversions of a slice to an array examined", c.sliceToArrayRule("T24", fns)), false)
+	c.S.OK("T25", "relying-party closure:divisions by a non-constant", "", fmt.Sprintf("%d integer divisions or remainders by a non-constant examined", c.divisorRule("T25", fns)), false)
 	// T21: a difference of two non-constant values that is used as a bound (or is unsigned) is taken only where the
 	// subtrahend is known to be no larger than the minuend
 	// (none on the present tree: the canary mutant C07-range-check-by-subtraction must fire)
